@@ -390,6 +390,36 @@ def m4_of(spec):
     return bytes.fromhex(spec["m4"]) if "m4" in spec else M4_OK
 
 
+def envelope_of(resp):
+    """the envelope recipe of the answer the responder has just produced (first answer of a round only)"""
+    if not resp.rounds or resp.rounds[-1].get("m3") is not None:
+        return {}
+    spec = resp.specs[min(len(resp.rounds) - 1, len(resp.specs) - 1)]
+    return spec.get("envelope") or {}
+
+
+def replaces_pairing_data(env):
+    return bool(env) and any(k in env for k in ("pd", "em", "top"))
+
+
+def companion_frame(env, ans):
+    """OPACK object of the accessory's answer frame: {'_pd': data} unless the recipe says otherwise"""
+    obj = {"_pd": ans}
+    kind = env.get("pd")
+    if kind == "missing":
+        del obj["_pd"]
+    elif kind is not None:
+        obj["_pd"] = {"str": ans.hex(), "int": 7, "none": None, "list": [ans], "float": 1.5, "bool": True, "dict": {"d": ans},
+                      "empty": b"", "empty-str": "", "zero": 0}[kind]
+    if "em" in env:
+        obj["_em"] = env["em"]
+    if "ec" in env:
+        obj["_ec"] = env["ec"]
+    if env.get("top") == "list":
+        return [obj]
+    return obj
+
+
 class Responder:
     """The accessory side of one connection attempt (possibly several verify rounds)."""
 
@@ -537,9 +567,11 @@ async def drive_mrp(W, cvar, resp, pt, init="same"):
                 ans = resp.on_message(message.inner().pairingData)
                 if ans is None:
                     return
+                env = envelope_of(resp)
                 reply = messages.create(protobuf.CRYPTO_PAIRING_MESSAGE)
-                reply.inner().pairingData = ans
-                reply.inner().status = 0
+                if env.get("pd") != "missing":
+                    reply.inner().pairingData = ans
+                reply.inner().status = env.get("mrp_status", 0)
             elif message.type == protobuf.DEVICE_INFO_MESSAGE:
                 reply = messages.device_information(InfoSettings(), "accessory")
                 reply.identifier = message.identifier
@@ -605,7 +637,7 @@ async def drive_companion(W, cvar, resp, pt, init="same"):
             ans = resp.on_message(obj.get("_pd", b""))
             if ans is None:
                 return
-            loop.call_soon(self.listener.frame_received, FrameType.PV_Next, opack.pack({"_pd": ans}))
+            loop.call_soon(self.listener.frame_received, FrameType.PV_Next, opack.pack(companion_frame(envelope_of(resp), ans)))
 
     conn = Conn()
     service = MutableService("id", Protocol.Companion, 0, {})
@@ -1060,6 +1092,30 @@ def gen_cases(ctx, W, full, stride=1):
     for name, m4 in (("error", "0601040701 02".replace(" ", "")), ("error-only", "070102"), ("backoff", "0601040701030802 0a00".replace(" ", "")),
                      ("empty", ""), ("lone-tag", "06010407"), ("unknown-item", "060104110100")):
         add("m4:" + name, {"m4": m4})
+    # answers whose envelope is wrong: Companion frames with _pd of the wrong OPACK type, missing or
+    # empty, with an error report (_em / _ec); MRP crypto pairing messages without pairing data / with
+    # an error status.  f1_model: how the model sees it (the exchange itself raises ProtocolError).
+    def env_case(name, protos, env, f1_model=None, spec=None):
+        c = {"family": "envelope:" + name, "spec": dict(spec or {}, envelope=env), "cvar": None, "f1": None, "f3": None, "wseed": W.wseed,
+             "id_len": len(W.acc["A"].ident), "protos": list(protos)}
+        if f1_model:
+            c["f1_model"] = f1_model
+        out.append(c)
+
+    for kind in ("str", "int", "list", "float", "bool", "dict"):
+        env_case("companion:_pd-is-" + kind, ["companion"], {"pd": kind}, "EProtocol")
+    for kind in ("none", "missing", "empty", "empty-str", "zero"):
+        env_case("companion:_pd-" + kind, ["companion"], {"pd": kind})
+    env_case("companion:_em-with-genuine-data", ["companion"], {"em": "kAuthenticationErr"}, "EProtocol")
+    env_case("companion:_em-and-_ec-with-genuine-data", ["companion"], {"em": "No such device", "ec": 6727}, "EProtocol")
+    env_case("companion:_em-without-data", ["companion"], {"em": "kAuthenticationErr", "ec": 6754, "pd": "missing"}, "EProtocol")
+    env_case("companion:_em-empty-text", ["companion"], {"em": ""}, "EProtocol")
+    env_case("companion:_ec-only-genuine-data", ["companion"], {"ec": 6727})
+    env_case("companion:_ec-only-impostor", ["companion"], {"ec": 0}, spec={"signer": "B"})
+    env_case("mrp:pairing-data-missing", ["mrp"], {"pd": "missing"})
+    env_case("mrp:pairing-data-missing-error-status", ["mrp"], {"pd": "missing", "mrp_status": -6727})
+    env_case("mrp:error-status-genuine-data", ["mrp"], {"mrp_status": -6727})
+    env_case("mrp:error-status-impostor", ["mrp"], {"mrp_status": 1}, spec={"signer": "B"})
     # random multi-damage
     nf = 60 if not full else 400
     for _ in range(nf):
@@ -1103,6 +1159,14 @@ def evaluate(W, case, protos=PROTOS, with_v1=True):
         if f1 is None and o["m2"] != pd:
             res["harness_error"] = "accessory answers differ between runs"
             return res
+    env = case["spec"].get("envelope") or {}
+    if replaces_pairing_data(env):
+        # the answer frame does not deliver these pairing data at all (wrong type, error report, ...)
+        pd = b""
+        j = judge(W, cvar, cpriv, cpub, pd)
+        j["why"] = "the answer is not pairing data: %s" % json.dumps(env, sort_keys=True)
+        res.update(pd=pd, cpub=cpub, cpriv=cpriv, judge=j)
+        return res
     j = judge(W, cvar, cpriv, cpub, pd)
     res.update(pd=pd, cpub=cpub, cpriv=cpriv, judge=j)
     if with_v1 and j["fields"] is not None and f1 is None and f3 is None:
@@ -1262,7 +1326,7 @@ def coq_case(W, case, res, nm):
         raw = None if o["raw"] == "Accept" else o["raw"]
         top = "None" if o.get("no_top") else "(Some (%s, %s))" % (opte(o["surfaced"]), common.cbool(o["keys"]))
         obs.append("(%s, %s, %s, %s)" % (COQ_PROTO[o["proto"]], opte(raw), optb(o["m3"]), top))
-    return "(%s, %s, %s, %s, %s, %s, %s, %s, [%s])" % (h, c, tab, opte(fault_coq(case.get("f1"))), t(res["pd"]),
+    return "(%s, %s, %s, %s, %s, %s, %s, %s, [%s])" % (h, c, tab, opte(case.get("f1_model") or fault_coq(case.get("f1"))), t(res["pd"]),
                                                          opte(fault_coq(case.get("f3"))), t(m4_of(case["spec"])), vt, "; ".join(obs))
 
 
@@ -2375,6 +2439,8 @@ def world_of(case):
 
 def eval_one(arg):
     case, protos = arg
+    if case.get("protos"):
+        protos = tuple(case["protos"])
     W = world_of(case)
     try:
         if case.get("twice"):
